@@ -1,3 +1,72 @@
-From Sonic Require Import Base.Prelude Model.Loop.
-Theorem C01_placeholder : True. Proof. exact I. Qed.
-Print Assumptions C01_placeholder.
+(* C01 -- exactly-once completion of every asynchronous operation.
+   Model/Loop.v mirrors /repo/file.go (asyncRead/asyncReadNow/scheduleRead/onRead and the write twins, Cancel, Close),
+   /repo/internal/poll_linux.go (setRW, DelRead, DelWrite, Poll with its batch loop) and /repo/io.go, together with a model
+   of the kernel objects (socket, FIFO ends, regular file).  The batch epoll_wait returned is an input of the model, so
+   every theorem below quantifies over all batches, masks and handler programs.  The whole-history statement (each
+   started operation's callback appears exactly once in the trace, Cancel completes each in-flight operation once with
+   the cancellation error, nothing of an object runs after its Close) is the extracted ledger oracle Spec/OpLedger.v,
+   run on the model's trace and on the implementation's trace of every script; the theorems are the per-step facts that
+   make it hold.  PARTIAL: the induction of the ledger over whole histories is not proved in Coq. *)
+From Sonic Require Import Base.Prelude Gen.Consts Model.Loop Proofs.LoopProofs.
+Local Open Scope Z_scope.
+
+(* Never twice: the poller removes the interest before it dispatches, and a batch entry whose object has no interest
+   left (completed, cancelled or closed by an earlier handler of the same batch) dispatches nothing and changes nothing,
+   whatever mask the kernel reported. *)
+Theorem C01_stale_batch_entry_dispatches_nothing : forall s i o mask,
+  lookup i (l_objs s) = Some o -> o_evR o = false -> o_evW o = false ->
+  fst (poll_entry s (0, i, mask)) = s /\
+  (forall it, In it (snd (poll_entry s (0, i, mask))) -> it = IPollWrite i) /\
+  write_event s i xNil = (s, []).
+Proof. exact stale_entry_safe. Qed.
+Print Assumptions C01_stale_batch_entry_dispatches_nothing.
+
+(* After Close returns the object has no interest registered (so, by the theorem above, no batch entry can invoke a
+   callback of it) and Close itself invokes nothing. *)
+Theorem C01_close_leaves_no_interest : forall s i o,
+  lookup i (l_objs s) = Some o -> o_closed o = false ->
+  exists o', lookup i (l_objs (fst (do_action s (AClose i)))) = Some o' /\
+             o_closed o' = true /\ o_evR o' = false /\ o_evW o' = false /\ snd (do_action s (AClose i)) = [].
+Proof. exact close_clears_interest. Qed.
+Print Assumptions C01_close_leaves_no_interest.
+
+(* The system-call loop of asyncReadNow/asyncWriteNow ends in exactly one of: one completion (one callback item), the
+   interest registered again (deferred to the poller), or - excluded by the correspondence run - fuel exhaustion. *)
+Theorem C01_io_attempt_completes_once_or_rearms : forall fuel s i w p wrapped,
+  (exists e n, snd (io_now fuel s i w p wrapped) = [IInvoke (op_cb p) e n wrapped]) \/
+  (snd (io_now fuel s i w p wrapped) = [] /\
+   (armed (fst (io_now fuel s i w p wrapped)) i w \/ l_fuel_out (fst (io_now fuel s i w p wrapped)) = true \/
+    lookup i (l_objs s) = None)).
+Proof. exact io_now_outcome. Qed.
+Print Assumptions C01_io_attempt_completes_once_or_rearms.
+
+(* Never zero times: a deferred read whose descriptor the batch reports with IN, HUP or ERR (peer data, close, reset,
+   hang-up of a FIFO that only has a read interest) is dispatched by that poll: one callback, or re-armed. *)
+Theorem C01_ready_read_is_dispatched : forall s i o p mask,
+  lookup i (l_objs s) = Some o -> o_evR o = true -> o_rd o = Some p ->
+  has mask mIN || has mask mHUP || has mask mERR = true ->
+  exists items, snd (poll_entry s (0, i, mask)) = items ++ (if has mask mOUT || (has mask mHUP || has mask mERR) then [IPollWrite i] else []) /\
+    ((exists e n, items = [IInvoke (op_cb p) e n false]) \/
+     (items = [] /\ (armed (fst (poll_entry s (0, i, mask))) i false \/ l_fuel_out (fst (poll_entry s (0, i, mask))) = true))).
+Proof. exact ready_read_is_dispatched. Qed.
+Print Assumptions C01_ready_read_is_dispatched.
+
+(* Cancel completes the in-flight read exactly once, with the cancellation error and the progress made so far, and
+   removes its interest (then handles the write side). *)
+Theorem C01_cancel_completes_read_once : forall s i o p,
+  lookup i (l_objs s) = Some o -> o_evR o = true -> o_rd o = Some p ->
+  snd (do_action s (ACancel i)) = [IInvoke (op_cb p) xCancelled (op_sofar p) false; ICancelWrites i] /\
+  exists o', lookup i (l_objs (fst (do_action s (ACancel i)))) = Some o' /\ o_evR o' = false.
+Proof. exact cancel_completes_read. Qed.
+Print Assumptions C01_cancel_completes_read_once.
+
+(* Non-vacuity: two sockets with deferred reads, both ready in one batch; the first handler cancels the second object:
+   both callbacks run exactly once (the second with the cancellation error) and its batch entry is then stale. *)
+Example C01_demo :
+  let s := lrun loop_init
+    [LObj 1 KSock; LObj 2 KSock; LProg 10 [ACancel 2]; LProg 20 [];
+     LDepth 0; LAct (AStart false false 1 4 10); LAct (AStart false false 2 4 20);
+     LPeer 1 (PData 4); LPeer 2 (PData 4); LPoll [(0, 1, 1); (0, 2, 1)]] in
+  filter (fun e => match e with LCb _ _ _ _ => true | _ => false end) (rev (l_log s)) = [LCb 10 0 4 1; LCb 20 2 0 2]
+  /\ l_pending s = 0 /\ l_fuel_out s = false.
+Proof. vm_compute. auto. Qed.
